@@ -79,6 +79,10 @@ def run_real(em, rec, via=None):
     # every second machine-level replay: the trainer kind is set through the estimator protocol AFTER construction
     # (set_params / attribute assignment), the machine having been built as the other kind
     switched = via == "machine" and (hbits // 2) % 2 == 1
+    # every second machine-level replay: the switches are NumPy booleans (what a machine read from a file carries, or
+    # the result of a NumPy comparison), not the Python singletons
+    if via == "machine" and (hbits // 4) % 2 == 1:
+        rec = dict(rec, um=np.bool_(rec["um"]), uv=np.bool_(rec["uv"]), uw=np.bool_(rec["uw"]))
     C = 2
     cthr = float(CTHR)
     vfl = float(fr(rec["vfl"]))
